@@ -15,6 +15,30 @@ type PropSpec struct {
 }
 
 var properties = map[string]PropSpec{
+	"C05": {
+		Level: "other",
+		Explanation: "Necessary conditions of 'IsEqual rejects any difference and never panics', decided on everything reachable from Stack.IsEqual and Condition.IsEqual. R-LOOPRET (every comparison loop: stack.isEqual, slicesEqual, structsEqual, mapsEqual): the error variable is a latch - each comparison whose verdict is stored into it is made only in states where it is still nil, so a difference found at one element can never be overwritten by a later nil; the function returns that variable (or, straight out of the loop, the verdict/fresh error just obtained); counting loops start at 0, advance by exactly one, fetch both sides at the loop counter itself, are bounded by the length (Len/NumField/ulen) and can be left only when the counter reached the bound, a difference is recorded, or an error is returned. NILRET: each equality function returns nil only on paths on which every comparison it made outside a loop returned nil. R-COVER: on every accepting path of condition.isEqual the keywords were compared equal, the operators are both absent or their String() and Context() were both compared equal, and the verdict returned is valuesEqual(r.ex, o.ex); on every accepting path of stack.isEqual the two are the same object or capLenEqual held, the kinds were compared equal, and the element loop compares r.index(i) with o.index(i). R-NIL/R-REFL/R-CANIF/R-TA/R-BND census over the scope: typed nil pointers of any depth, zero reflect.Values, unexported struct fields, missing map keys cannot panic; every reflect.Value method called is classified (panic conditions tabled or known total) and Value.Equal is reached only with operands accepted by isKnownPrimitive.",
+		NotDecided: "symmetry of the verdict and completeness of rejection for every leaf kind (semantics of reflect.Value.Equal, kind lattice, map iteration): value-level reasoning. Known gap observed by testing, not decided here: a []Stack / []Condition leaf is compared through reflect.Values, which skips the unexported embedded pointer (two such leaves differing only inside a nested stack compare equal).",
+		Run: func(c *Ctx) {
+			c.ruleInv()
+			var roots []*ssa.Function
+			for _, n := range []string{"Stack.IsEqual", "Condition.IsEqual"} {
+				if f := c.anchor("R-COVER", n); f != nil {
+					roots = append(roots, f)
+				}
+			}
+			scope := c.reach(roots...)
+			c.ruleCensus(scope, map[string]bool{"R-NIL": true, "R-REFL": true, "R-TA": true, "R-BND": true})
+			c.ruleCanif()
+			c.ruleReflComplete(scope)
+			c.ruleEqLoops(scope)
+			c.ruleEqNilRet(scope)
+			c.ruleEqParts()
+			c.rep.floor("R-LOOPRET", 18)
+			c.rep.floor("R-COVER", 2)
+			c.rep.floor("R-REFL", 20)
+		},
+	},
 	"C07": {
 		Level: "other",
 		Explanation: "Traverse is implemented by four loop-free, mutually recursive functions; stepwise Index descent is a finite decision at each level, so agreement is decided per level and follows for every path length and tree by induction on the path. R-LEVEL: each level consumes exactly one path element - stack.traverse reads indices[0] only, every call inside the group passes the path on unchanged, and the single recursive call of traverse receives exactly indices[1:]; the path is used for nothing else. R-TRAV (tables, return paths enumerated exactly): traverse hands the handler the element stack.index returned for indices[0] and only when that lookup reported it found (non-nil), otherwise (nil,false) - also for an invalid receiver and an empty path; traverseStack returns (value,true) for a Stack/alias at the end of the path, the results of the descent into the Stack it converts to when elements remain, (nil,false) for a non-Stack; traverseStackInCondition returns (the Condition,true) at the end of the path, continues with the Condition's own Expression() when elements remain, (nil,false) for a non-Condition; the handler returns the Stack helper's results if it succeeded, else the Condition helper's, else (element,true) for a leaf at the end of the path, else (nil,false); Stack.Traverse forwards path and results and yields (nil,false) when uninitialised. Lookup = the same stack.index that Index uses (position translation proved in C01). R-NIL/R-REFL/R-BND/R-TA census restricted to everything reachable from Traverse: no tree or path can panic.",
@@ -83,6 +107,7 @@ var properties = map[string]PropSpec{
 			c.ruleInv()
 			c.ruleCensus(nil, map[string]bool{"R-NIL": true, "R-REFL": true, "R-TA": true, "R-DIV": true})
 			c.ruleCanif()
+			c.ruleReflComplete(nil)
 			c.ruleCensus(nil, map[string]bool{"R-BND": true})
 			c.rep.floor("R-BND", 100)
 			c.rep.floor("R-NIL", 1300)
